@@ -683,7 +683,8 @@ def conc_stage(rep, work, name, systems, clients, runs, ops, keys, gated, race=F
                 rep.known[fid] = rep.known.get(fid, 0) + 1
             else:
                 rep.violations.append((rp, "data race reported by the Go race detector:\n" + "\n".join(first.splitlines()[:14])))
-    if p.returncode != 0:
+    raced = "DATA RACE" in err
+    if p.returncode != 0 and not (raced and os.path.exists(out)):
         if "fatal error:" in err or "panic:" in err:
             first = err[max(0, err.find("fatal error:")):][:4000]
             rp = os.path.join(VERIF, "replays", "C07-fatal-%s.txt" % hashlib.sha1(first.encode()).hexdigest()[:16])
@@ -777,3 +778,146 @@ def conc_stage(rep, work, name, systems, clients, runs, ops, keys, gated, race=F
         rep.violations.append((rp, desc))
     log("stage %-28s %d runs / %d events on %s clients %s race=%s: rejected %d, inconclusive %d" % (
         name, summ["runs"], summ["events"], ",".join(systems), clients, race, len(rejected), inconclusive))
+
+
+# ---------------------------------------------------------------------------
+# C09: request grammar -> observations -> TraceReq.tla
+
+def fuzz_stage(rep, work, name, constants, systems, states, opts="", every=1, timeout=1800, mem_gb=16):
+    import hashlib, resource
+    tag = re.sub(r"\W", "_", name)
+    cfgfile = "MC_Requests.%s.cfg" % tag
+    write_cfg(work.path(cfgfile), constants, invariants=["EmitInv"])
+    trace = work.path("req.%s.ndjson" % tag)
+    out = work.path("req.%s.json" % tag)
+    progress = work.path("req.%s.progress" % tag)
+    cmd = [HARNESS, "fuzzreq", "--systems", ",".join(systems), "--states", ",".join(states), "--opts", opts,
+           "--seed", str(rep.seed), "--trace", trace, "--out", out, "--progress", progress, "--every", str(every)]
+
+    def limit():
+        resource.setrlimit(resource.RLIMIT_AS, (mem_gb << 30, mem_gb << 30))
+    p = subprocess.Popen(cmd, stdin=subprocess.PIPE, stderr=subprocess.PIPE, bufsize=1 << 20, preexec_fn=limit)
+    errbuf = []
+    t = threading.Thread(target=lambda: errbuf.extend(p.stderr.readlines()), daemon=True)
+    t.start()
+    try:
+        res = run_tlc(work, "MC_Requests.tla", cfgfile, sink=p.stdin, workers=4, timeout=timeout)
+    except Infra:
+        res = None
+    try:
+        p.stdin.close()
+    except Exception:
+        pass
+    rc = p.wait()
+    t.join(timeout=5)
+    err = b"".join(errbuf).decode("utf-8", "replace")
+    os.makedirs(os.path.join(VERIF, "replays"), exist_ok=True)
+    if rc != 0:
+        # the process under test died: attribute to the request in flight and confirm in a fresh process
+        culprit = None
+        try:
+            with open(progress) as f:
+                culprit = json.loads(f.readline())
+        except Exception:
+            pass
+        if culprit and ("fatal error" in err or "panic" in err or "signal" in err or rc < 0):
+            one = work.path("culprit.json")
+            with open(one, "w") as f:
+                json.dump(culprit, f)
+            p2 = subprocess.run([HARNESS, "fuzzreq", "--one", one, "--opts", opts, "--seed", str(rep.seed)],
+                                capture_output=True, text=True, preexec_fn=limit, timeout=300)
+            if p2.returncode != 0:
+                rp = os.path.join(VERIF, "replays", "C09-fatal-%s.json" % hashlib.sha1(json.dumps(culprit, sort_keys=True).encode()).hexdigest()[:16])
+                with open(rp, "w") as f:
+                    json.dump({"request": culprit, "stderr": p2.stderr[-3000:]}, f, indent=1)
+                first = [l for l in p2.stderr.splitlines() if "fatal error" in l or "panic:" in l][:1]
+                desc = "the whole process died serving %s on %s: %s" % (json.dumps(culprit.get("req")), culprit.get("sys"), first[0] if first else "killed")
+                fid = classify(rep.prop, culprit.get("sys", ""), "Fatal", desc)
+                if fid:
+                    rep.known[fid] = rep.known.get(fid, 0) + 1
+                else:
+                    rep.violations.append((rp, desc))
+                return
+        raise Infra("fuzzreq died (rc=%s) and the death could not be attributed/confirmed:\n%s" % (rc, err[-3000:]))
+    if res is None or not res.ok:
+        raise Infra("MC_Requests failed:\n" + ("\n".join(res.log[-20:]) if res else ""))
+    with open(out) as f:
+        summ = json.load(f)
+    rep.add_tlc(name + "/grammar", res)
+    # judge the observations
+    def sig(ev):
+        r = ev["req"]
+        return json.dumps([ev["sys"], ev["state"], r["method"], r["path"], r["subs"], r["pname"], r["pclass"], r["hdr"], r["body"]])
+    cur = trace
+    rejected = []
+    vstates = vtrans = 0
+    for attempt in range(40):
+        if os.path.getsize(cur) == 0:
+            break
+        ok, at, vres = validate_trace(work, "TraceReq", cur, timeout=timeout)
+        vstates += vres.distinct
+        vtrans += vres.generated
+        if ok:
+            break
+        with open(cur) as f:
+            lines = f.readlines()
+        bad = json.loads(lines[at - 1])
+        rejected.append(bad)
+        # drop every observation of the same failure class so that the rest is judged too
+        def cls(ev):
+            return (ev["sys"], ev["panic"], ev["timeout"], ev["st"], ev["body"], ev["code"], ev["canary"] == "ok",
+                    ev["req"]["method"] if ev["body"] == "other" else "", ev.get("detail", "")[:60])
+        bc = cls(bad)
+        nxt = work.path("req.%s.%d.ndjson" % (tag, attempt))
+        with open(nxt, "w") as f:
+            for l in lines:
+                if cls(json.loads(l)) != bc:
+                    f.write(l)
+        cur = nxt
+    else:
+        rep.extra.setdefault("notes", []).append("stage %s: more than 40 distinct failure classes" % name)
+    vr = TLCResult()
+    vr.distinct, vr.generated = vstates, vtrans
+    rep.add_tlc(name + "/judge", vr)
+    rep.traces += summ["executed"]
+    rep.steps += summ["executed"]
+    rep.stages.append({"stage": name, "grammar_requests": summ["requests"], "executed": summ["executed"],
+                       "per_system": summ["per_system"], "stores_built": summ["stores_built"], "rejected_classes": len(rejected)})
+    if len(rep.samples) < 3 and os.path.exists(trace):
+        with open(trace) as f:
+            for i, l in enumerate(f):
+                if i % 5003 == 17 and len(rep.samples) < 3:
+                    rep.samples.append(json.loads(l))
+    for bad in rejected:
+        # confirm in a fresh process
+        one = work.path("one.json")
+        with open(one, "w") as f:
+            json.dump(bad, f)
+        p2 = subprocess.run([HARNESS, "fuzzreq", "--one", one, "--opts", opts, "--seed", str(rep.seed)],
+                            capture_output=True, text=True, preexec_fn=limit, timeout=300)
+        confirmed = False
+        try:
+            ob2 = json.loads(p2.stdout.strip().splitlines()[-1])
+            confirmed = (ob2["panic"], ob2["timeout"], ob2["st"], ob2["body"], ob2["code"], ob2["canary"] == "ok") == \
+                        (bad["panic"], bad["timeout"], bad["st"], bad["body"], bad["code"], bad["canary"] == "ok")
+        except Exception:
+            confirmed = p2.returncode != 0
+        what = "panic" if bad["panic"] else "no response (hang)" if bad["timeout"] else \
+            ("canary failed: " + bad["canary"]) if bad["canary"] != "ok" else \
+            "status %d with a %s body%s" % (bad["st"], bad["body"], (" code " + bad["code"]) if bad["code"] else "")
+        desc = "%s/%s: %s %s subs=%s %s=%s hdr=%s body=%s -> %s %s" % (
+            bad["sys"], bad["state"], bad["req"]["method"], bad["req"]["path"], bad["req"]["subs"], bad["req"]["pname"],
+            bad["req"]["pclass"], json.dumps(bad["req"]["hdr"]), bad["req"]["body"], what, bad.get("detail", "")[:160])
+        if not confirmed:
+            rep.extra.setdefault("unconfirmed", []).append(desc)
+            continue
+        fid = classify(rep.prop, bad["sys"], "Req", desc)
+        if fid:
+            rep.known[fid] = rep.known.get(fid, 0) + 1
+            continue
+        rp = os.path.join(VERIF, "replays", "C09-req-%s.json" % hashlib.sha1(json.dumps(bad, sort_keys=True).encode()).hexdigest()[:16])
+        with open(rp, "w") as f:
+            json.dump(bad, f, indent=1)
+        rep.violations.append((rp, desc))
+    log("stage %-28s grammar %d requests, executed %d on %s; rejected classes %d" % (
+        name, summ["requests"], summ["executed"], ",".join(systems), len(rejected)))
